@@ -359,6 +359,55 @@ example (s' : State) (hs : step (runG init (goodRound ++ List.replicate 14 (0, .
     (hend : s'.stopper = none) : s'.envOk = true :=
   env_published_partial _ 0 s' (by decide) hs (by decide) hend
 
+/-! ## The park loop is necessary (stale unpark tokens)
+
+`resume_threads` unparks EVERY registered thread, whether it parked or not: a thread that sat in a primitive during a
+round (or was the stopper) keeps the token.  The models have that token (`resU`: `token := true`) and the step
+`parking → exitCheck` (the `while` around `park()`).  `stepIf` is the variant in which the dispatch poll parks once
+(`if paused { park() }`: `parking → retract`); under the SAME guard `G` — no stop request reaches a leaving thread, no
+overlap with a spawn or an interrupt — it violates the scan clause with one stale token.  (Translator fact + obligation
+`park_is_in_a_loop`, `GenExits.lean`; forced on the real engine by corpus/C15/stale_token*.sched.) -/
+
+/-- `step` with `park_thread_while_paused` waiting once. -/
+def stepIf (s : State) (t : Tid) (a : Act) : Option State :=
+  match s.threads[t]? with
+  | none => none
+  | some th =>
+    match a, th.pc with
+    | .step, .parking .poll =>
+        if th.token then some (s.put t { th with token := false, pc := .retract .poll }) else none
+    | _, _ => step s t a
+
+def runIfG (s : State) : List (Tid × Act) → State
+  | [] => s
+  | (t, a) :: rest =>
+      if G s t a then
+        match stepIf s t a with
+        | none => s
+        | some s' => runIfG s' rest
+      else s
+
+/-- Thread 1 sits in a primitive during a first round of thread 0 (and keeps the token of `resume_threads`); in a
+second round it polls, publishes and parks, thread 0 begins to replace its table, … -/
+def staleToken : List (Tid × Act) :=
+  [(0, .spawn)] ++ List.replicate 3 (0, .step) ++ [(1, .callPrim), (0, .setGlobal)] ++ List.replicate 27 (0, .step) ++
+  List.replicate 3 (1, .step) ++                                    -- 1: the primitive returns; it leaves; token = true
+  [(0, .setGlobal)] ++ List.replicate 9 (0, .step) ++               -- 0: second round: stop requests sent
+  [(1, .poll)] ++ List.replicate 3 (1, .step) ++                    -- 1: sees paused, publishes, `park()`
+  List.replicate 3 (0, .step) ++                                    -- 0: drain_env; self; scanBegin 1
+  [(1, .step), (1, .step)]                                          -- 1: park() returns at once (stale token) …
+
+/-- … with the loop it re-tests `paused` and parks again (scanned all the time, every line accepted by the guard); -/
+theorem staleToken_loop_reparks :
+    runG code staleToken = run code staleToken ∧
+    (run code staleToken).threads.map (fun th => (th.pc, th.scanned, th.token)) =
+      [(.acc .env 0 1, 0, true), (.parking .poll, 1, false)] ∧ (run code staleToken).scanOk = true := by decide
+
+/-- … parking once it retracts and dispatches while its table is being replaced — the guard accepts every line. -/
+theorem staleToken_if_violates :
+    (runIfG code staleToken).threads.map (fun th => (th.pc, th.scanned)) = [(.acc .env 0 1, 0), (.run, 1)] ∧
+    (runIfG code staleToken).scanOk = false := by decide
+
 /-! ## The repaired handshake: both statements at full strength
 
 `ModelR.lean` is the model of the code with the proposed repairs applied (K15a: every safepoint exit retracts and
@@ -407,6 +456,14 @@ example : ((R.run R.init R.exitRaceR).th 1).pc = .parking .prim ∧ ((R.run R.in
   K15a patch therefore adds `fence(SeqCst)` after `ctx.store(None)` and at the end of `stop_threads` and makes the
   `paused` loads of the exit paths `SeqCst`.  For the code as it is a delayed `paused` store only widens the window
   `G` already excludes.
+* Host-side definitions and assignments (`Engine::update_value`, `register_value`, `register_fn`): in the models every
+  global update is a `setGlobal` of SOME thread; that the host entry points go through `with_locked_env` behind a kept
+  heap-lock guard is `C16.gate_keeps_guard` (table) and the host-side scenario family of the check (differential, oracle
+  = one sequentially consistent store).  Redefinitions of an existing name make a fresh binding in steel (code compiled
+  earlier keeps the old one, single-threaded as well): not part of this property.
+* A collection's marking phase: the models' `gc` round has nothing between the scan of the last thread and
+  `resume_threads`; that the code marks in between while everybody else is still stopped is `collection_resumes_last`
+  (table) and the forced schedule corpus/C15/gc_marking.sched (needs the hooks gc.mark.begin / gc.mark.end).
 * "resumes with state consistent with the operation's result": only the VERSION of the global table a thread
   holds (`env`) is modelled; a collection changes nothing in the model.  That the table with that version
   contains the completed definition, that a thread's stack, open upvalues and JIT frames are what the collector
